@@ -164,6 +164,97 @@ theorem C07_update_from_variable_fixed_witness :
   simp [QState.step, QState.updateFromVar, QState.eff, Store.asF, Rnd.exact, QState.run, QState.call,
     QState.build]
 
+/-! ## 2b. several quantizers and caller-owned variables: the factor is private state
+
+  (strengthening round, seed C07-4)  `Sys` = any number of quantizer objects and any number of
+  caller-owned float32 `tf.Variable`s; an interleaved history mixes single-quantizer operations,
+  `q_i.update_qnoise_factor(w_k)`, `q_i.update_qnoise_factor(q_j.qnoise_factor)` and the caller's
+  own `w_k.assign(v)`.  The update API copies the CURRENT value of a variable it is handed. -/
+
+/-- frame, one operation: an update (or build / call / flip) of another quantizer, or an assignment
+    to a caller's variable, leaves quantizer `b` exactly as it was -/
+theorem C07_multi_frame_step (rd : Rnd) (s : Sys) (m : MOp) (b : ℕ) (h : m.target ≠ some b) :
+    (s.step rd m).q b = s.q b :=
+  sys_step_frame rd s m b h
+
+/-- frame, every interleaved history: whatever is done to OTHER quantizers — including updating
+    them from the very variable `b` was updated from — and whatever the caller assigns to its
+    variables, quantizer `b` keeps its storage, its value, and the factor its next call uses -/
+theorem C07_multi_frame (rd : Rnd) (s : Sys) (b : ℕ) (ms : List MOp)
+    (h : ∀ m ∈ ms, m.target ≠ some b) :
+    (Sys.run rd s ms).q b = s.q b ∧ ((Sys.run rd s ms).q b).eff rd = (s.q b).eff rd := by
+  have := sys_run_frame rd b ms s h
+  exact ⟨this, by rw [this]⟩
+
+/-- qkeras never writes a caller's variable: over every history its value is what the caller's own
+    last `assign` made it (here: unchanged when the history has no `assign` to it) -/
+theorem C07_multi_caller_variable_untouched (rd : Rnd) (s : Sys) (k : ℕ) (ms : List MOp)
+    (h : ∀ m ∈ ms, m.assigns ≠ some k) : (Sys.run rd s ms).w k = s.w k :=
+  sys_run_w rd k ms s h
+
+/-- an interleaved history acts on quantizer `b` exactly like `b`'s own history (the operations
+    addressed to `b`, a source variable being read at the moment of the update) -/
+theorem C07_multi_local_history (rd : Rnd) (s : Sys) (b : ℕ) (ms : List MOp) :
+    (Sys.run rd s ms).q b = QState.run rd (s.q b) (proj rd b s ms) :=
+  sys_run_proj rd b ms s
+
+/-- two interleavings (of any two systems) that contain the same history of `b` leave `b` in the
+    same state: what surrounds `b`'s own operations is irrelevant -/
+theorem C07_multi_interleaving_independent (rd : Rnd) (s1 s2 : Sys) (b : ℕ) (ms1 ms2 : List MOp)
+    (h0 : s1.q b = s2.q b) (hp : proj rd b s1 ms1 = proj rd b s2 ms2) :
+    (Sys.run rd s1 ms1).q b = (Sys.run rd s2 ms2).q b := by
+  rw [sys_run_proj, sys_run_proj, h0, hp]
+
+/-- the storage theorem for one quantizer among many: after every interleaved history the factor
+    the next call of `b` uses is float32 of the last value written TO `b` (a number, or the value
+    a source variable had when `b` was updated from it), or `b`'s initial factor -/
+theorem C07_multi_storage_invariant (rd : Rnd) (hid : ∀ x, rd.r32 (rd.r32 x) = rd.r32 x)
+    (s : Sys) (hs : s.WF rd) (b : ℕ) (ms : List MOp) (hms : ∀ m ∈ ms, m.WF rd) :
+    ((Sys.run rd s ms).q b).eff rd =
+      match lastWrite (proj rd b s ms) with
+      | some v => rd.r32 v
+      | none => (s.q b).eff rd := by
+  rw [sys_run_proj]
+  exact storage_invariant rd _ _ (proj_wf rd hid b ms s hs hms)
+
+/-- one source variable pushed to two quantizers (`a` may even be `b`), then ANY history that does
+    not address `b` — updates of `a`, further updates from the same variable, assignments to it:
+    `b` still uses the value the variable had when `b` was updated -/
+theorem C07_multi_shared_source (rd : Rnd) (s : Sys) (a b k : ℕ) (ms : List MOp)
+    (hw : rd.r32 (s.w k) = s.w k) (h : ∀ m ∈ ms, m.target ≠ some b) :
+    ((Sys.run rd s (.updateFromCaller a k :: .updateFromCaller b k :: ms)).q b).eff rd = s.w k := by
+  simp only [Sys.run]
+  rw [(C07_multi_frame rd _ b ms h).2, sys_step_q]
+  simp only [MOp.resolve, if_true]
+  have hk : (s.step rd (.updateFromCaller a k)).w k = s.w k :=
+    sys_step_w rd s _ k (by simp [MOp.assigns])
+  rw [hk]
+  exact (C07_update_from_variable rd _ (s.w k) hw).2
+
+/-- non-vacuity: a well-formed system and history (exact and IEEE readings are idempotent) -/
+example : (⟨fun _ => ⟨.py (1/3), false, true⟩, fun _ => 1/4⟩ : Sys).WF Rnd.exact ∧
+    (∀ m ∈ [MOp.updateFromCaller 0 0, .local 1 (.update (1/3)), .assign 0 (1/2), .updateFromQuant 1 0],
+      m.WF Rnd.exact) ∧ (∀ x, Rnd.exact.r32 (Rnd.exact.r32 x) = Rnd.exact.r32 x) := by
+  refine ⟨⟨fun _ => rfl, fun i v h => rfl⟩, ?_, fun _ => rfl⟩
+  intro m hm
+  simp only [List.mem_cons, List.mem_nil_iff, or_false] at hm
+  rcases hm with h | h | h | h <;> subst h <;> simp [MOp.WF, Op.WF]
+
+/-- the history of seed C07-4 in the model: one caller variable (1/4) pushed to two built quantizers
+    in python storage (and, second system, in Variable storage), then `q0.update(1)`, then the
+    caller assigns 1/2: quantizer 1 still uses 1/4, quantizer 0 uses 1, the variable holds 1/2 -/
+theorem C07_multi_shared_source_witness :
+    let h : List MOp := [.updateFromCaller 0 0, .updateFromCaller 1 0, .local 0 (.update 1),
+                         .assign 0 (1/2), .local 1 .call]
+    let sp : Sys := ⟨fun _ => ⟨.py 1, true, false⟩, fun _ => 1/4⟩
+    let sv : Sys := ⟨fun _ => ⟨.var 1, true, true⟩, fun _ => 1/4⟩
+    (((Sys.run Rnd.exact sp h).q 1).eff Rnd.exact = 1/4 ∧ ((Sys.run Rnd.exact sp h).q 0).eff Rnd.exact = 1
+      ∧ (Sys.run Rnd.exact sp h).w 0 = 1/2) ∧
+    (((Sys.run Rnd.exact sv h).q 1).eff Rnd.exact = 1/4 ∧ ((Sys.run Rnd.exact sv h).q 0).eff Rnd.exact = 1
+      ∧ (Sys.run Rnd.exact sv h).w 0 = 1/2) := by
+  simp [Sys.run, Sys.step, setAt, QState.step, QState.updateFromVar, QState.update, QState.call,
+    QState.eff, Store.asF, Rnd.exact]
+
 /-! ## 3. calculate_qnoise_factor -/
 
 /-- `r ↦ r^(k+1)` with exact arithmetic satisfies the hypotheses (exponent a positive natural) -/
